@@ -228,6 +228,24 @@ int main(int argc, char** argv) {
         try { lmr.refine_mesh(c); } catch (std::exception&) {}
         g_force_in_band = false;
     }
+    // ---- refused swaps: a sliver whose longest edge A-B has its two opposite nodes C and D joined by an edge already (and no node
+    // of valence three, so that the first refusal of swap_edge does not apply): swap_edge must leave the mesh as it is.  A thin
+    // tetrahedron ABCD whose faces ACD and BCD are subdivided by a node each; every edge is inside the band.
+    for (double unit : {1e-5, 1.0, std::ldexp(1.0, -17)}) for (int v = 0; v < 4; v++) {
+        const double w = (v & 1) ? 0.05 : 0.1, t = (v & 2) ? 0.03 : 0.08;
+        shapes::tmesh m;
+        const double P[6][3] = {{-1, 0, 0}, {1, 0, 0}, {0, w, t}, {0, -w, t}, {-1. / 3, 0, 2 * t / 3 + 0.05}, {1. / 3, 0, 2 * t / 3 + 0.05}};
+        for (auto& p : P) for (int a = 0; a < 3; a++) m.pos.push_back(p[a]);
+        // A=0 B=1 C=2 D=3 E=4 (in ACD) F=5 (in BCD); the orientation is repaired by initialize_cell_properties
+        m.tris = {0, 1, 2, 0, 3, 1, 0, 2, 4, 2, 3, 4, 3, 0, 4, 1, 3, 5, 3, 2, 5, 2, 1, 5};
+        shapes::transform(m, unit, 3 * unit, -2 * unit, 11 * unit);
+        cell_ptr c = make_cell(m);
+        c->update_all_face_normals_and_areas();
+        g_swaps_enabled = true; g_degenerate = false;
+        local_mesh_refiner lmr(0.02 * unit, 10. * unit, true);
+        g_lmin2 = lmr.get_l_min_squared(); g_lmax2 = lmr.get_l_max_squared();
+        try { lmr.refine_mesh(c); } catch (std::exception&) {}
+    }
     int done = 0, cellno = 0;
     while (done < npass && g_records < max_records) {
         // a fresh cell: sphere of level 1 or 2 (or a stretched one), scaled to micrometres, anywhere in space
